@@ -8,6 +8,7 @@ MSG = "hippolyzer/lib/base/message/message.py"
 MH = "hippolyzer/lib/base/message/message_handler.py"
 RLV = "hippolyzer/lib/client/rlv.py"
 SCHED = "hippolyzer/lib/proxy/task_scheduler.py"
+HELPERS = "hippolyzer/lib/base/helpers.py"
 
 _HOOK_TAIL = ("            return hook_func(*args, **kwargs)\n"
               "        except:\n"
@@ -275,30 +276,67 @@ VARIANTS = [
              "            if ret:\n                claimed = ret\n                break\n        else:\n            claimed = None\n\n"
              "        return claimed\n")},
     # ------------------------------------------------------------------ R8
-    {"name": "R8 wait_for handler removed from the first notifier only", "file": MH, "expect": "C07.R8",
+    {"name": "P R8 wait_for handler removed from the first notifier only (takes at most once since D33)", "file": MH, "expect": "silent",
      "old": "            # Make sure to unregister this handler for all message types\n            for n in notifiers:\n"
             "                n.unsubscribe(_handler)\n",
      "new": "            notifiers[0].unsubscribe(_handler)\n"},
-    {"name": "R8 wait_for handler unsubscribes only when it completed the future", "file": MH, "expect": "C07.R8",
-     "old": "            if not fut.done():\n                fut.set_result(message)\n"
-            "            # Make sure to unregister this handler for all message types\n            for n in notifiers:\n"
-            "                n.unsubscribe(_handler)\n",
-     "new": "            if not fut.done():\n                fut.set_result(message)\n"
-            "                for n in notifiers:\n                    n.unsubscribe(_handler)\n"},
+    {"name": "P R8 wait_for handler unsubscribes only when it completed the future (takes at most once since D33)", "file": MH,
+     "expect": "silent",
+     "old": '            if not fut.done():\n                # Whatever was awaiting this future now owns this message\n                if take:\n                    message = message.take()\n                fut.set_result(message)\n            # Make sure to unregister this handler for all message types\n            for n in notifiers:\n                n.unsubscribe(_handler)\n',
+     "new": '            if not fut.done():\n                # Whatever was awaiting this future now owns this message\n                if take:\n                    message = message.take()\n                fut.set_result(message)\n                for n in notifiers:\n                    n.unsubscribe(_handler)\n'},
+    {"name": "R8 wait_for handler takes the message before asking whether anybody still waits (71c6441 reverted)", "file": MH,
+     "expect": "C07.R8", "old": '            if not fut.done():\n                # Whatever was awaiting this future now owns this message\n                if take:\n                    message = message.take()\n                fut.set_result(message)\n',
+     "new": "            if take:\n                message = message.take()\n"
+            "            if not fut.done():\n                fut.set_result(message)\n"},
+    {"name": "P R8 liveness test as a guard clause around take()", "file": MH, "expect": "silent", "old": '            if not fut.done():\n                # Whatever was awaiting this future now owns this message\n                if take:\n                    message = message.take()\n                fut.set_result(message)\n',
+     "new": "            waiting = not fut.done()\n            if waiting:\n                if take:\n"
+            "                    message = message.take()\n                fut.set_result(message)\n"},
+    {"name": "R8 unsubscription by return value and the pending-future test removed", "file": MH, "expect": "C07.R8",
+     "old": '            if not fut.done():\n                # Whatever was awaiting this future now owns this message\n                if take:\n                    message = message.take()\n                fut.set_result(message)\n            # Make sure to unregister this handler for all message types\n            for n in notifiers:\n                n.unsubscribe(_handler)\n',
+     "new": "            if take:\n                message = message.take()\n"
+            "            if not fut.done():\n                fut.set_result(message)\n"
+            "            # returning a truthy value makes the notifier that fired drop this handler\n            return True\n"},
+    {"name": "R8 stale registration of a handler that takes unconditionally (first notifier only)", "file": MH, "expect": "C07.R8",
+     "old": '            if not fut.done():\n                # Whatever was awaiting this future now owns this message\n                if take:\n                    message = message.take()\n                fut.set_result(message)\n            # Make sure to unregister this handler for all message types\n            for n in notifiers:\n                n.unsubscribe(_handler)\n',
+     "new": "            if take:\n                message = message.take()\n"
+            "            if not fut.done():\n                fut.set_result(message)\n"
+            "            notifiers[0].unsubscribe(_handler)\n"},
     {"name": "R8 subscribe_async cleanup no longer in a finally", "file": MH, "expect": "C07.R8",
      "old": "        try:\n            yield _get_wrapper\n        finally:\n            for n in notifiers:\n"
             "                n.unsubscribe(_handler_wrapper)\n",
      "new": "        yield _get_wrapper\n        for n in notifiers:\n            n.unsubscribe(_handler_wrapper)\n"},
     {"name": "P R8 unsubscribe everywhere before completing the future", "file": MH, "expect": "silent",
-     "old": "            if not fut.done():\n                fut.set_result(message)\n"
-            "            # Make sure to unregister this handler for all message types\n            for n in notifiers:\n"
-            "                n.unsubscribe(_handler)\n",
-     "new": "            for event in notifiers:\n                event.unsubscribe(_handler)\n"
-            "            if not fut.done():\n                fut.set_result(message)\n"},
+     "old": '            if not fut.done():\n                # Whatever was awaiting this future now owns this message\n                if take:\n                    message = message.take()\n                fut.set_result(message)\n            # Make sure to unregister this handler for all message types\n            for n in notifiers:\n                n.unsubscribe(_handler)\n',
+     "new": '            for event in notifiers:\n                event.unsubscribe(_handler)\n            if not fut.done():\n                # Whatever was awaiting this future now owns this message\n                if take:\n                    message = message.take()\n                fut.set_result(message)\n'},
     {"name": "P R8 notifier list kept under another name", "file": MH, "expect": "silent",
      "old": "        notifiers = self._subscribe_all(message_names, _handler_wrapper, predicate=predicate)\n",
      "new": "        registered = self._subscribe_all(message_names, _handler_wrapper, predicate=predicate)\n"
             "        notifiers = registered\n"},
+    {"name": "R8 taken copy discarded when parking it fails", "file": MH, "expect": "C07.R8",
+     "old": "            msg_queue.put_nowait(message)\n",
+     "new": "            try:\n                msg_queue.put_nowait(message)\n            except Exception:\n"
+            "                LOG.warning('could not park %r' % (message,))\n"},
+    {"name": "P R8 parking failure logged and re-raised", "file": MH, "expect": "silent",
+     "old": "            msg_queue.put_nowait(message)\n",
+     "new": "            try:\n                msg_queue.put_nowait(message)\n            except Exception:\n"
+            "                LOG.warning('could not park %r' % (message,))\n                raise\n"},
+    {"name": "R8 parking queue bounded", "file": MH, "expect": "C07.R8",
+     "old": "        msg_queue = asyncio.Queue()\n", "new": "        msg_queue = asyncio.Queue(maxsize=500)\n"},
+    {"name": "P R8 parking queue explicitly unbounded", "file": MH, "expect": "silent",
+     "old": "        msg_queue = asyncio.Queue()\n", "new": "        msg_queue = asyncio.Queue(maxsize=0)\n"},
+    {"name": "R3 take() marks the original queued before copying it", "file": MSG, "expect": "C07.R3",
+     "old": '        message_copy = copy.deepcopy(self)\n\n        # Set the queued flag so the original will be dropped and acks will be sent\n        if not self.finalized:\n            self.queued = True\n',
+     "new": "        # Set the queued flag so the original will be dropped and acks will be sent\n"
+            "        if not self.finalized:\n            self.queued = True\n\n        message_copy = copy.deepcopy(self)\n"},
+    {"name": "P R3 take() logs after marking the original", "file": MSG, "expect": "silent",
+     "old": '        message_copy = copy.deepcopy(self)\n\n        # Set the queued flag so the original will be dropped and acks will be sent\n        if not self.finalized:\n            self.queued = True\n',
+     "new": "        message_copy = copy.deepcopy(self)\n\n        # Set the queued flag so the original will be dropped and acks will be sent\n        if not self.finalized:\n            self.queued = True\n            logging.debug('taken %s' % (self.name,))\n"},
+    {"name": "R1 mtime helper tolerates only some stat failures", "file": HELPERS, "expect": "C07.R1",
+     "old": "        return os.stat(path).st_mtime\n    except:\n        return None\n",
+     "new": "        return os.stat(path).st_mtime\n    except (FileNotFoundError, PermissionError):\n        return None\n"},
+    {"name": "P R1 mtime helper catches OSError", "file": HELPERS, "expect": "silent",
+     "old": "        return os.stat(path).st_mtime\n    except:\n        return None\n",
+     "new": "        return os.stat(path).st_mtime\n    except OSError:\n        return None\n"},
     # ------------------------------------------------------------------ R9
     {"name": "R9 command message dropped only after the command dispatch succeeded", "file": ADDONS, "expect": "C07.R9",
      "old": ("                region.circuit.drop_message(message)\n"
@@ -321,16 +359,25 @@ VARIANTS = [
              "                finally:\n"
              "                    pass\n"
              "                with addon_ctx.push(session, region):\n")},
-    {"name": "R9 empty RLV message claimed again (fix reverted)", "file": ADDONS, "expect": "C07.R9",
+    {"name": "X empty RLV message counted as handled again (now dropped and acked cleanly; whether an empty command "
+             "list is 'handled' is value-level)", "file": ADDONS, "expect": "miss",
      "old": "                all_cmds_handled = bool(commands)\n", "new": "                all_cmds_handled = True\n"},
-    {"name": "R9 handled RLV command no longer drops the message", "file": ADDONS, "expect": "C07.R9",
-     "old": "                        if handled:\n                            region.circuit.drop_message(message)\n"
-            "                        else:\n                            all_cmds_handled = False\n",
-     "new": "                        if not handled:\n                            all_cmds_handled = False\n"},
+    {"name": "R9 RLV claim no longer drops the message", "file": ADDONS, "expect": "C07.R9",
+     "old": '                if all_cmds_handled:\n                    if not message.finalized:\n                        region.circuit.drop_message(message)\n                    return True\n', "new": "                if all_cmds_handled:\n                    return True\n"},
+    {"name": "R9 message dropped once per handled RLV command (7741823 reverted)", "expect": "C07.R9",
+     "edits": [{"file": ADDONS, "old": "                        if not handled:\n                            all_cmds_handled = False\n",
+                "new": "                        if handled:\n                            region.circuit.drop_message(message)\n"
+                       "                        else:\n                            all_cmds_handled = False\n"},
+               {"file": ADDONS, "old": '                if all_cmds_handled:\n                    if not message.finalized:\n                        region.circuit.drop_message(message)\n                    return True\n', "new": "                if all_cmds_handled:\n                    return True\n"}]},
+    {"name": "P R9 RLV claim drops through an early-exit test on finalized", "file": ADDONS, "expect": "silent",
+     "old": '                if all_cmds_handled:\n                    if not message.finalized:\n                        region.circuit.drop_message(message)\n                    return True\n',
+     "new": "                if all_cmds_handled:\n                    if not message.finalized:\n"
+            "                        LOG.debug('dropping handled RLV chat')\n"
+            "                        region.circuit.drop_message(message)\n                    return True\n"},
     {"name": "P R9 non-empty test moved into the claim condition", "expect": "silent",
      "edits": [{"file": ADDONS, "old": "                all_cmds_handled = bool(commands)\n", "new": "                all_cmds_handled = True\n"},
-               {"file": ADDONS, "old": "                if all_cmds_handled:\n                    return True\n",
-                "new": "                if commands and all_cmds_handled:\n                    return True\n"}]},
+               {"file": ADDONS, "old": "                if all_cmds_handled:\n                    if not message.finalized:\n",
+                "new": "                if commands and all_cmds_handled:\n                    if not message.finalized:\n"}]},
     # ------------------------------------------------------------------ R10
     {"name": "R10 RLV sniffing calls startswith on undecoded chat again (D29 reverted)", "file": RLV, "expect": "C07.R10",
      "old": "chat_type == ChatType.OWNER and isinstance(chat, str) and chat.startswith(\"@\")",
